@@ -50,6 +50,12 @@ func (ial *IndentAwareLexer) checkNextToken() {
 func (ial *IndentAwareLexer) handleNewLineToken(currentToken antlr.Token) {
 	ial.pendingTokens.Enqueue(currentToken)
 
+	if ial.nextLineIsBlankOrComment() {
+		// blank, whitespace-only and comment-only lines carry no statement:
+		// their indentation must not open or close any block
+		return
+	}
+
 	currentIndentationLength := ial.getLengthOfNewlineToken(currentToken)
 
 	previousIndent := 0
@@ -73,6 +79,19 @@ func (ial *IndentAwareLexer) handleNewLineToken(currentToken antlr.Token) {
 			}
 		}
 	}
+}
+
+// nextLineIsBlankOrComment looks at what follows a NEWLINE token (which includes the
+// indentation of the line it starts) to tell whether that line holds anything but a comment.
+func (ial *IndentAwareLexer) nextLineIsBlankOrComment() bool {
+	input := ial.GetInputStream()
+	switch input.LA(1) {
+	case antlr.TokenEOF, '\n', '\r':
+		return true
+	case '/':
+		return input.LA(2) == '/'
+	}
+	return false
 }
 
 func (ial *IndentAwareLexer) getLengthOfNewlineToken(currentToken antlr.Token) int {
